@@ -335,6 +335,8 @@ package derive
 //@ extern func (f *token.File) Name() (r string)
 //@ pure
 //@ reads-heap
+//@ extern func (x *ast.CallExpr) Pos() (r token.Pos)
+//@ pure
 //@ extern func (f *ast.File) Pos() (r token.Pos)
 //@ pure
 //@ reads-heap
@@ -422,6 +424,9 @@ package derive
 //@ ensures [pkg-plugins] err == nil ==> r.plugins == plugins
 //@ ensures [pkg-generators] err == nil ==> forall i int :: 0 <= i && i < len(plugins) ==> derive.Plugin.Name(plugins[i]) in r.generators && r.generators[derive.Plugin.Name(plugins[i])] != nil
 //@ assert-at-call derive.pkg.Add: forall i int, n string :: 0 <= i && i < len(fileInfos) && n in fileInfos[i].funcNames ==> n in reserved
+// C07: calls are registered in source order, whether or not the old derived.gen.go already defines them
+// (Pos: the position as parsed; Fun is replaced by an identifier without position only after the order is fixed)
+//@ assert-at-call derive.pkg.Add: [registration-in-source-order] forall a int, b int :: 0 <= a && a < b && b < len(calls) ==> ast.CallExpr.Pos(calls[a].Expr) <= ast.CallExpr.Pos(calls[b].Expr)
 //@ assert-after-call format.Node: $ret0 != nil || fs[fileInfo.fullpath] == Format(fileInfo.astFile)
 //@ loop 1: invariant reserved != nil && forall i int, n string :: 0 <= i && i < $i && n in fileInfos[i].funcNames ==> n in reserved
 //@ loop 2: invariant typesmaps != nil && deps != nil
